@@ -1130,7 +1130,7 @@ def run(ctx):
 
     # 1. (b) code -> spec: assignment histories are recorded first; TLC validates them on the
     #    code points in the background while the bounded configuration runs and is replayed
-    ntr, nev, deep_every = (240, 10, 1) if quick else (3500, 12, 4)
+    ntr, nev, deep_every = (200, 10, 1) if quick else (3000, 12, 4)
     traces = [record_trace(rng, nev) for i in range(ntr)]
     for i, t in enumerate(traces):
         t["deep"] = (i % deep_every == 0)         # reader model evaluated by TLC on these (diagnostic)
@@ -1167,7 +1167,7 @@ def run(ctx):
             if g.init not in g.out or len(g.states) != r_lts.distinct:
                 raise core.MachineryError("history LTS: %d states from EDGE lines, TLC found %d" % (len(g.states), r_lts.distinct))
             hvalues = [v for v in values if tuple(v["v"]) != (120,)] + [v for v in values if tuple(v["v"]) == (120,)]
-            nwalks, wlen, wchunk = (160, 24, 20) if quick else (2000, 40, 100)
+            nwalks, wlen, wchunk = (140, 24, 20) if quick else (1500, 40, 100)
             slim_edges = [{k: e[k] for k in ("from", "op", "args", "res", "to")} for e in g.edges]
             wpay = [(ctx.seed, ctx.tier, off, min(wchunk, nwalks - off), wlen, slim_edges, H_INIT, hvalues)
                     for off in range(0, nwalks, wchunk)]
